@@ -10,3 +10,4 @@ import InToto.Properties.C06
 #print axioms InToto.C06.parsed_is_calendar_date
 #print axioms InToto.C06.day_numbers_are_consecutive
 #print axioms InToto.C06.earlier_stamp_is_smaller_instant
+#print axioms InToto.C06.facts_expiry_before_links_and_inspections
